@@ -379,6 +379,12 @@ CHECKS = {
                         "scenario": "csc",
                         "quick": 8000,
                         "thorough": 600000
+                },
+                {
+                        "module": "rueidis",
+                        "scenario": "dedicated",
+                        "quick": 4000,
+                        "thorough": 300000
                 }
         ],
         "expected_probes": [
@@ -392,7 +398,7 @@ CHECKS = {
                 "stubs": STUBS
         },
         "assumptions": [
-                "dedicated clients with SetOnInvalidations (tracking off before reuse) are not covered yet"
+                "dedicated part: before the next user's first command on a connection whose previous dedicated session had installed an invalidation callback, the model saw CLIENT TRACKING OFF and holds no tracking state for it (also reported under C25)"
         ]
 },
     "C07": {
